@@ -126,6 +126,8 @@ func (s *State) get(name string, sort Sort) Term {
 			t = s.vc.declare("E$"+name, sort) // read before initialisation cannot happen: Alloc zeroes first
 		case strings.HasPrefix(name, "G$called$"), strings.HasPrefix(name, "G$held$"), strings.HasPrefix(name, "G$tainted$"), strings.HasPrefix(name, "D$") && sort == SBool:
 			t = tFalse
+		case strings.HasPrefix(name, "G$always$"):
+			t = tTrue
 		case strings.HasPrefix(name, "G$ncalls$"), name == "G$clock", strings.HasPrefix(name, "G$seq$"):
 			t = i64(0)
 		default:
